@@ -995,13 +995,97 @@ def m_fn_call(ex, m, args, callee):
 
 # ----------------------------------------------------------------------------- fmt / strings
 
-@model(r'^(Arguments::(new|new_const|new_v1|new_v1_formatted|from_str)|Argument::(new_display|new_debug|new_lower_hex|new_upper_hex|new_lower_exp|none|new_binary|new_octal|from_usize)|Placeholder::new|Count::\w+|UnsafeArg::new)$')
+def _decode_bytes_literal(text):
+    """MIR `b"..."` literal -> bytes"""
+    body = text[2:-1]
+    out = bytearray()
+    i = 0
+    while i < len(body):
+        c = body[i]
+        if c == '\\':
+            e = body[i + 1]
+            if e == 'x':
+                out.append(int(body[i + 2:i + 4], 16))
+                i += 4
+                continue
+            out.append({'n': 10, 't': 9, 'r': 13, '0': 0, '\\': 92, '"': 34, "'": 39}.get(e, ord(e)))
+            i += 2
+            continue
+        out.extend(c.encode('utf-8'))
+        i += 1
+    return bytes(out)
+
+
+def _display_text(ex, v):
+    """Display text of a formatting argument when it is fully determined, else None"""
+    t = val(v)
+    if isinstance(t, str):
+        return t
+    if isinstance(t, bool):
+        return 'true' if t else 'false'
+    if isinstance(t, int):
+        return str(t)
+    if isinstance(t, Struct) and t.name == 'BaseUnit':
+        k = freeze(t)
+        return k if isinstance(k, str) else None
+    return None
+
+
+@model(r'^Argument::(new_display|new_debug|new_lower_hex|new_upper_hex|new_lower_exp|new_binary|new_octal)$')
+def m_fmt_arg(ex, m, args, callee):
+    return Opaque('fmtarg', (m.group(1), args[0]))
+
+
+@model(r'^Arguments::(new|new_const|new_v1|new_v1_formatted|from_str)$|^(Argument::(none|from_usize)|Placeholder::new|Count::\w+|UnsafeArg::new)$')
 def m_fmt_args(ex, m, args, callee):
+    k = m.group(1)
+    if k == 'from_str' and isinstance(val(args[0]), str):
+        return Opaque('fmtargs', ('literal', val(args[0])))
+    if k == 'new' and len(args) == 2:
+        tpl = val(args[0])
+        arr = val(args[1])
+        if isinstance(tpl, Opaque) and tpl.tag == 'bytes' and isinstance(arr, Arr):
+            return Opaque('fmtargs', ('template', _decode_bytes_literal(tpl.info), list(arr.fields)))
     return Opaque('fmt', None)
 
 
 @model(r'^(format|format_inner)$')
 def m_format(ex, m, args, callee):
+    a = val(args[0])
+    if isinstance(a, Opaque) and a.tag == 'fmtargs':
+        info = a.info
+        if info[0] == 'literal':
+            return info[1]
+        tpl, fargs = info[1], info[2]
+        out = []
+        i = 0
+        k = 0
+        okk = True
+        while i < len(tpl):
+            b = tpl[i]
+            if b == 0:
+                break
+            if b == 0xC0:
+                if k >= len(fargs):
+                    okk = False
+                    break
+                fa = val(fargs[k])
+                k += 1
+                txt = _display_text(ex, fa.info[1]) if (isinstance(fa, Opaque) and fa.tag == 'fmtarg' and fa.info[0] == 'new_display') else None
+                if txt is None:
+                    okk = False
+                    break
+                out.append(txt)
+                i += 1
+                continue
+            if b < 0x80:
+                out.append(tpl[i + 1:i + 1 + b].decode('utf-8', 'replace'))
+                i += 1 + b
+                continue
+            okk = False
+            break
+        if okk:
+            return ''.join(out)
     return Opaque('string', 'formatted')
 
 
